@@ -115,6 +115,27 @@ theorem resolve_order_independent (σ₁ σ₂ : Field → List Entry → List E
     intro x; rw [m₁ x, m₂ x, hsame x]
   exact ⟨heq, fun rm => by unfold resolve; rw [heq]⟩
 
+/-- **Counters.** `DocumentCount` equals the number of DIDs with at least one event and `ConflictedCount`
+    the number of DIDs whose latest version is conflicted — after ANY arrival sequence. -/
+theorem stats_are_what_the_states_imply (cfg : Cfg) (l : List Event) (s : Store) (h : addAll cfg {} l = .ok s) :
+    s.documentCount = s.dids.length ∧
+    s.conflictedCount = (s.dids.filter (fun p => p.2.conflicted)).length ∧
+    (∀ k, k ∈ keys s ↔ (s.get k).events ≠ []) := by
+  have hs := addAll_storeInv cfg l {} s (storeInv_empty cfg) h
+  exact ⟨hs.docs, hs.confl, mem_keys_iff cfg s hs⟩
+
+/-- hence both counters are independent of the arrival order (and of Go's map iteration order) -/
+theorem stats_order_independent (σ₁ σ₂ : Field → List Entry → List Entry)
+    (h₁ : ∀ f l, (σ₁ f l).Perm l) (h₂ : ∀ f l, (σ₂ f l).Perm l)
+    (l₁ l₂ : List Event) (hU : RefFun l₁) (hsame : ∀ e, e ∈ l₁ ↔ e ∈ l₂) (s₁ s₂ : Store)
+    (r₁ : addAll (cfgOf σ₁ Facts.C10.mergeSortedFields) {} l₁ = .ok s₁)
+    (r₂ : addAll (cfgOf σ₂ Facts.C10.mergeSortedFields) {} l₂ = .ok s₂) :
+    s₁.documentCount = s₂.documentCount ∧ s₁.conflictedCount = s₂.conflictedCount := by
+  have i₁ := addAll_storeInv _ l₁ {} s₁ (storeInv_empty _) r₁
+  have i₂ := addAll_storeInv _ l₂ {} s₂ (storeInv_empty _) r₂
+  exact counts_determined _ _ s₁ s₂ i₁ i₂
+    (fun k => (resolve_order_independent σ₁ σ₂ h₁ h₂ l₁ l₂ hU hsame s₁ s₂ r₁ r₂ k).1)
+
 /-! ### deactivation is permanent; a covering update resolves a conflict -/
 
 theorem applyEvent_deactivated (cfg : Cfg) (evs : List Event) (c : Meta) (e : Event) (d : Doc) (m : Meta)
